@@ -133,8 +133,28 @@ let nsync_mu_trylock_cas2_guard old_word =
           (Z.coq_lor
             (wrap_u (Zpos (Coq_xO (Coq_xO (Coq_xO (Coq_xO (Coq_xO
               Coq_xH))))))
-              (wrap_s (Zpos (Coq_xO (Coq_xO (Coq_xO (Coq_xO (Coq_xO
-                Coq_xH)))))) (Z.shiftl (Zpos Coq_xH) Z0)))
+              (Z.coq_lor
+                (wrap_u (Zpos (Coq_xO (Coq_xO (Coq_xO (Coq_xO (Coq_xO
+                  Coq_xH))))))
+                  (wrap_s (Zpos (Coq_xO (Coq_xO (Coq_xO (Coq_xO (Coq_xO
+                    Coq_xH)))))) (Z.shiftl (Zpos Coq_xH) Z0)))
+                (Z.sub (Zpos (Coq_xI (Coq_xI (Coq_xI (Coq_xI (Coq_xI (Coq_xI
+                  (Coq_xI (Coq_xI (Coq_xI (Coq_xI (Coq_xI (Coq_xI (Coq_xI
+                  (Coq_xI (Coq_xI (Coq_xI (Coq_xI (Coq_xI (Coq_xI (Coq_xI
+                  (Coq_xI (Coq_xI (Coq_xI (Coq_xI (Coq_xI (Coq_xI (Coq_xI
+                  (Coq_xI (Coq_xI (Coq_xI (Coq_xI
+                  Coq_xH))))))))))))))))))))))))))))))))
+                  (wrap_u (Zpos (Coq_xO (Coq_xO (Coq_xO (Coq_xO (Coq_xO
+                    Coq_xH))))))
+                    (Z.sub
+                      (wrap_u (Zpos (Coq_xO (Coq_xO (Coq_xO (Coq_xO (Coq_xO
+                        Coq_xH))))))
+                        (wrap_s (Zpos (Coq_xO (Coq_xO (Coq_xO (Coq_xO (Coq_xO
+                          Coq_xH))))))
+                          (Z.shiftl (Zpos Coq_xH) (Zpos (Coq_xO (Coq_xO
+                            (Coq_xO Coq_xH)))))))
+                      (wrap_u (Zpos (Coq_xO (Coq_xO (Coq_xO (Coq_xO (Coq_xO
+                        Coq_xH)))))) (Zpos Coq_xH)))))))
             (wrap_u (Zpos (Coq_xO (Coq_xO (Coq_xO (Coq_xO (Coq_xO
               Coq_xH))))))
               (wrap_s (Zpos (Coq_xO (Coq_xO (Coq_xO (Coq_xO (Coq_xO
@@ -764,3 +784,36 @@ let nsync_mu_runlock_cas2_guard old_word =
               Coq_xH))))))
               (Z.shiftl (Zpos Coq_xH) (Zpos (Coq_xO (Coq_xO (Coq_xO
                 Coq_xH))))))))))
+
+(** val nsync_mu_semaphore_p_cas1_new : coq_Z -> coq_Z **)
+
+let nsync_mu_semaphore_p_cas1_new i =
+  wrap_u (Zpos (Coq_xO (Coq_xO (Coq_xO (Coq_xO (Coq_xO Coq_xH))))))
+    (wrap_s (Zpos (Coq_xO (Coq_xO (Coq_xO (Coq_xO (Coq_xO Coq_xH))))))
+      (Z.sub i (Zpos Coq_xH)))
+
+(** val nsync_mu_semaphore_p_cas1_guard : coq_Z -> bool **)
+
+let nsync_mu_semaphore_p_cas1_guard i =
+  negb (Z.eqb i Z0)
+
+(** val nsync_mu_semaphore_p_with_deadline_cas1_new : coq_Z -> coq_Z **)
+
+let nsync_mu_semaphore_p_with_deadline_cas1_new i =
+  wrap_u (Zpos (Coq_xO (Coq_xO (Coq_xO (Coq_xO (Coq_xO Coq_xH))))))
+    (wrap_s (Zpos (Coq_xO (Coq_xO (Coq_xO (Coq_xO (Coq_xO Coq_xH))))))
+      (Z.sub i (Zpos Coq_xH)))
+
+(** val nsync_mu_semaphore_p_with_deadline_cas1_guard :
+    coq_Z -> coq_Z -> bool **)
+
+let nsync_mu_semaphore_p_with_deadline_cas1_guard result i =
+  (&&) (Z.eqb result Z0) (negb (Z.eqb i Z0))
+
+(** val nsync_mu_semaphore_v_cas1_new : coq_Z -> coq_Z **)
+
+let nsync_mu_semaphore_v_cas1_new old_value =
+  wrap_u (Zpos (Coq_xO (Coq_xO (Coq_xO (Coq_xO (Coq_xO Coq_xH))))))
+    (Z.add old_value
+      (wrap_u (Zpos (Coq_xO (Coq_xO (Coq_xO (Coq_xO (Coq_xO Coq_xH))))))
+        (Zpos Coq_xH)))
